@@ -51,6 +51,10 @@ func runSolver(ctx context.Context, s solverSpec, file string, timeoutS int) (st
 	ms := time.Since(start).Milliseconds()
 	text := out.String()
 	first := strings.TrimSpace(strings.SplitN(strings.TrimSpace(text), "\n", 2)[0])
+	if strings.TrimSpace(text) == "" && cctx.Err() == nil && ctx.Err() == nil {
+		// the solver process produced nothing (could not start, was killed): not an answer about the query
+		return "noanswer", text, ms
+	}
 	switch {
 	case strings.Contains(text, "(error "):
 		return "error", text, ms
@@ -203,4 +207,34 @@ func discharge(results []*FuncResult, workDir string, timeoutS int, thorough boo
 		}()
 	}
 	wg.Wait()
+	// second chance, one at a time: an obligation that was not discharged while 16 solver processes competed
+	// for the machine (or whose solver process died) is tried again alone with twice the time before it is reported
+	for _, j := range js {
+		for k, o := range j.os {
+			if o.Status == "unsat" || o.Status == "" {
+				continue
+			}
+			if strings.Contains(o.Output, "(error ") {
+				continue // a malformed query stays an error
+			}
+			first := o.Status
+			q := o.Query(j.pre)
+			f := filepath.Join(workDir, fmt.Sprintf("%04d_retry%d_%s.smt2", j.idx, k, sanitize(o.Name)))
+			if len(f) > 200 {
+				f = f[:200] + ".smt2"
+			}
+			os.WriteFile(f, []byte(q), 0o644)
+			cf := ""
+			if thorough {
+				cf = strings.TrimSuffix(f, ".smt2") + ".cvc5.smt2"
+				os.WriteFile(cf, []byte(toCVC(q)), 0o644)
+			}
+			r := solve(f, timeoutS*2, thorough, cf)
+			if r.status == "unsat" {
+				o.Status, o.Solver, o.Ms, o.File = "unsat", r.solver+" (retry after "+first+")", o.Ms+r.ms, f
+			} else if o.Status == "noanswer" || o.Status == "error" {
+				o.Status, o.Solver, o.Output = r.status, r.solver, r.output
+			}
+		}
+	}
 }
